@@ -970,8 +970,23 @@ func Run(c *core.Ctx) core.FinishOpts {
 		}
 	}
 	c.Note("reported_over_injected_per_fault_and_operator", mat)
-	c.Note("product", fmt.Sprintf("%d faults x %d operators x %d modes x %d positions x %d optimizer settings, each with a fault-free control twin",
-		len(fs), len(os_), len(modes), len(positions), len(opts)))
+	nSrcF, nConF, nSrcO, nConO := 0, 0, 0, 0
+	for _, f := range fs {
+		if f.bad(0).consumer {
+			nConF++
+		} else {
+			nSrcF++
+		}
+	}
+	for _, o := range os_ {
+		if o.consumer {
+			nConO++
+		} else {
+			nSrcO++
+		}
+	}
+	c.Note("product", fmt.Sprintf("(%d faults below the operator x %d operator shapes + %d faults above the operator x %d consumer shapes) x %d modes x %d positions (where a position applies) x %d optimizer settings, each with a fault-free control twin; shapes that need a Time column are skipped for .lines inputs",
+		nSrcF, nSrcO, nConF, nConO, len(modes), len(positions), len(opts)))
 
 	return core.FinishOpts{
 		Level: "fault_enumeration",
